@@ -60,7 +60,7 @@ func setScalar(fv reflect.Value, kind, t string) {
 	switch kind {
 	case "bool":
 		fv.SetBool(t == "true")
-	case "string", "vv", "cp", "filename":
+	case "string", "vv", "cp", "filename", "us":
 		fv.SetString(t)
 	case "um":
 		fv.Set(reflect.ValueOf(UM{V: t}))
@@ -216,7 +216,7 @@ func genPlainText(r *Rng, kind string) string {
 		return r.Pick([]string{"0.5", "1.25", "-2.5", "3", "100.125", "0"})
 	case "duration":
 		return r.Pick([]string{"1s", "2m0s", "1h30m0s", "250ms", "0s"})
-	case "um":
+	case "um", "us":
 		return "um" + r.Pick(plainWords)
 	default:
 		return r.Pick(plainWords)
@@ -270,7 +270,7 @@ func plainToV(kind, text string) (V, error) {
 			return V{}, err
 		}
 		return V{T: BStr(strconv.FormatInt(int64(d), 10))}, nil
-	case "um":
+	case "um", "us":
 		if strings.HasPrefix(text, "bad") {
 			return V{}, fmt.Errorf("um: bad value")
 		}
@@ -335,7 +335,7 @@ func genStoreScalar(r *Rng, kind string, nasty bool) V {
 	switch kind {
 	case "bool":
 		return V{T: BStr(strconv.FormatBool(r.Bool()))}
-	case "string", "vv", "cp", "filename", "um":
+	case "string", "vv", "cp", "filename", "um", "us":
 		if nasty {
 			return V{T: BStr(genNastyString(r))}
 		}
